@@ -120,8 +120,8 @@ def c01(obs, act, viols, probes):
     for p in rec.phases:
       for mn, meas in (p.measurements or {}).items():
         oc = meas.outcome.name
-        if p.outcome is not None and p.outcome.name == 'SKIP':
-          continue
+        if p.outcome is None or p.outcome.name != 'PASS':
+          continue  # (FAIL / ERROR records are reported by pass_with_failed_phase; SKIP is exempt)
         if oc == 'FAIL' or oc == 'PARTIALLY_SET' or (oc == 'UNSET' and not s['allow_unset']):
           viols.append(_v('pass_with_bad_measurement', phase=p.name, measurement=mn, outcome=oc))
     if any(d.is_failure for d in rec.diagnoses):
